@@ -242,6 +242,11 @@ class Table(Vector):
 			return len(self._underlying)
 		return self._length
 
+	def fingerprint(self) -> int:
+		# A table is not told when one of its columns is written or replaced, so
+		# its own memo would go stale; the columns cache (and invalidate) theirs.
+		return self._compute_fingerprint_full()
+
 	@property
 	def shape(self):
 		n_rows = len(self)
